@@ -1,69 +1,132 @@
 ------------------------------ MODULE LiquidHistory ------------------------------
 (***************************************************************************)
-(* Histories of public calls on long-lived objects (C09): one Environment, *)
-(* its loader and the Template objects it has produced are used again and  *)
-(* again - render, render_async, analyze, from_string + render,            *)
-(* get_template + render - while the clock advances, some renders fail     *)
-(* part-way (the k-th access to the caller's data raises) and a second     *)
-(* Environment is configured differently.                                  *)
+(* Histories of public calls on long-lived objects (C09): Environments,    *)
+(* their loaders and the Template objects they have produced are used      *)
+(* again and again - render, render_async, analyze, from_string + render,  *)
+(* get_template + render, two render_async calls interleaved at their      *)
+(* await points - while the clock advances, the loader's contents are      *)
+(* edited, some renders fail part-way (the k-th access to the caller's     *)
+(* data, or the k-th loader call, raises) and a second Environment is      *)
+(* configured differently.                                                 *)
 (*                                                                         *)
 (* The design keeps all render state in a per-call context, so the result  *)
-(* of a call is a function of its inputs and the clock.  The model makes   *)
-(* the one piece of persistent state the code had - a memo on the date     *)
-(* filter - a named deviation: with it, TLC refutes HistoryIndependent.    *)
+(* of a call is a function of its inputs: template, data, loader contents  *)
+(* and clock.  The pieces of persistent state the code had or could grow   *)
+(* are named deviations, each refuted by TLC (non-vacuity):                *)
+(*   DateMemo     a memo on the date filter (as found)                     *)
+(*   PartialMemo  a tag remembering the partial it loaded last             *)
+(*   SharedNode   per-render state parked on a syntax-tree node shared by  *)
+(*                two concurrent renders of one Template                   *)
 (***************************************************************************)
 EXTENDS Integers, Sequences, TLC, Json, IOUtils
 
-CONSTANTS MaxOps, MaxFault, Dev, Focus
+CONSTANTS MaxOps, MaxFault, Dev, Focus,
+          Kinds,        \* which kinds of step are generated: subset of {"call", "tick", "edit", "pair"}
+          MaxSched,     \* length of the schedule prefix of a concurrent pair
+          TSet, DSet    \* the templates / data sets of this run ({} = all)
 
-\* the templates of the pool: what each exercises, and whether its output shows the clock
+\* the templates of the pool: what each exercises, whether its output shows the clock,
+\* whether it reads partials from the loader
 Pool == <<
-  [name |-> "counters", clocked |-> FALSE,
+  [name |-> "counters", clocked |-> FALSE, loads |-> FALSE,
    src |-> "{% increment c %}{% increment c %}{% decrement d %}{% cycle 'a', 'b' %}{% cycle 'a', 'b' %}{% cycle 'a', 'b' %}|{{ x.a }}"],
-  [name |-> "offsets", clocked |-> FALSE,
+  [name |-> "offsets", clocked |-> FALSE, loads |-> FALSE,
    src |-> "{% for i in x.l limit: 2 %}{{ i }}{% endfor %}|{% for i in x.l offset: continue %}{{ i }}{% endfor %}|{{ x.b }}"],
-  [name |-> "captures", clocked |-> FALSE,
+  [name |-> "captures", clocked |-> FALSE, loads |-> FALSE,
    src |-> "{{ z }}{% capture z %}[{{ x.a }}]{% endcapture %}{% assign y = x.b %}{{ z }}{{ y }}{% macro m a %}({{ a }}){% endmacro %}{% call m x.a %}"],
-  [name |-> "inherit", clocked |-> FALSE,
+  [name |-> "inherit", clocked |-> FALSE, loads |-> TRUE,
    src |-> "{% extends 'base' %}{% block b %}child {{ x.a }} {{ block.super }}{% endblock %}"],
-  [name |-> "partials", clocked |-> FALSE,
+  [name |-> "partials", clocked |-> FALSE, loads |-> TRUE,
    src |-> "{% include 'inc' %}{% render 'inc', x: x %}{% include 'inc' %}{{ v }}"],
-  [name |-> "clock", clocked |-> TRUE,
+  [name |-> "clock", clocked |-> TRUE, loads |-> FALSE,
    src |-> "{{ now }}|{{ today }}|{{ 'now' | date: '%s' }}|{{ 'today' | date: '%s' }}|{{ x.a }}"],
-  [name |-> "clockloop", clocked |-> TRUE,
-   src |-> "{% for i in x.l %}{{ 'now' | date: '%s' }};{% endfor %}{{ x.b | date: '%s' }}"] >>
-Partials == << [name |-> "base", src |-> "[{% block b %}base {{ x.b }}{% endblock %}|{% block c %}c{% increment n %}{% endblock %}]"],
-               [name |-> "inc", src |-> "<{% increment k %}{% assign v = x.a %}{{ v }}>"] >>
+  [name |-> "clockloop", clocked |-> TRUE, loads |-> FALSE,
+   src |-> "{% for i in x.l %}{{ 'now' | date: '%s' }};{% endfor %}{{ x.b | date: '%s' }}"],
+  \* filters that read the render context (translations, message variables, arrow functions), with
+  \* arguments that suspend in async renders
+  [name |-> "ctxfilters", clocked |-> FALSE, loads |-> FALSE,
+   src |-> "{{ 'v=%(v)s w=%(w)s' | t: w: x.a }}|{{ x.l | map: i => i | join: v }}|{{ x.l | where: i => i == x.n | first }}|{{ x.a | default: v }}"],
+  [name |-> "loops", clocked |-> FALSE, loads |-> TRUE,
+   src |-> "{% for i in x.l %}{% render 'inc', x: x %}{% cycle 'p', 'q', 'r' %}{% endfor %}{% render 'inc' for x.l as x %}"] >>
+\* two versions of every partial: an Edit step switches the loader of Environment 1 to the other one
+Partials == << [name |-> "base", src |-> "[{% block b %}base {{ x.b }}{% endblock %}|{% block c %}c{% increment n %}{% endblock %}]",
+                src2 |-> "<<{% block b %}BASE2 {{ x.a }}{% endblock %}>>"],
+               [name |-> "inc", src |-> "<{% increment k %}{% assign v = x.a %}{{ v }}>", src2 |-> "(inc2 {{ x.b }})"] >>
 
-TIds == DOMAIN Pool
+TIds == IF TSet = {} THEN DOMAIN Pool ELSE TSet
+DIds == IF DSet = {} THEN 1..2 ELSE DSet
 Calls == {"render", "render_async", "analyze", "from_string", "get_template"}
+PairIds == {t \in TIds : Pool[t].name \in {"ctxfilters", "partials", "counters", "loops"}}
 
-VARIABLES hist, clock, memo, last, expect
-vars == <<hist, clock, memo, last, expect>>
+RECURSIVE SeqsUpTo(_, _)
+SeqsUpTo(E, n) == IF n = 0 THEN {<<>>} ELSE SeqsUpTo(E, n - 1) \cup {Append(s, x) : s \in SeqsUpTo(E, n - 1), x \in E}
+Scheds == {s \in SeqsUpTo({1, 2}, MaxSched) : Len(s) = MaxSched}
 
-\* what a call returns, abstractly: which template, which data, the clock if it shows
-Value(t, d, c) == [t |-> t, d |-> d, c |-> IF Pool[t].clocked THEN c ELSE 0]
+VARIABLES hist, clock, content, memo, pmemo, last, expect
+vars == <<hist, clock, content, memo, pmemo, last, expect>>
 
-Init == hist = <<>> /\ clock = 0 /\ memo = [t \in TIds |-> -1] /\ last = [kind |-> "none"] /\ expect = [kind |-> "none"]
+\* what a call returns, abstractly: which template, which data, the clock if it shows, the
+\* loader contents if it loads
+Value(t, d, c, v) == [t |-> t, d |-> d, c |-> IF Pool[t].clocked THEN c ELSE 0, v |-> IF Pool[t].loads THEN v ELSE 0]
 
-Call(kind, t, d, fault, env) ==
+Init == /\ hist = <<>> /\ clock = 0 /\ content = [e \in 1..2 |-> 1]
+        /\ memo = [t \in DOMAIN Pool |-> -1] /\ pmemo = [e \in 1..2 |-> [t \in DOMAIN Pool |-> 0]]
+        /\ last = <<>> /\ expect = <<>>
+
+\* fk: "data" (the k-th access to the caller's data raises) | "loader" (the k-th loader call raises)
+Call(kind, t, d, fk, fault, env) ==
+  /\ "call" \in Kinds
   /\ Len(hist) < MaxOps
-  /\ hist' = Append(hist, [op |-> kind, t |-> t, d |-> d, fault |-> fault, env |-> env])
-  /\ LET seen == IF "DateMemo" \in Dev /\ Pool[t].clocked /\ memo[t] >= 0 THEN memo[t] ELSE clock IN
-     /\ last' = IF fault > 0 THEN [kind |-> "fault"] ELSE [kind |-> "ok", v |-> Value(t, d, seen)]
+  \* (a caching loader calls its inner loader less often - by design, see C14: loader faults on Environment 1 only)
+  /\ fk = "loader" => (fault > 0 /\ Pool[t].loads /\ kind # "analyze" /\ env = 1)
+  /\ hist' = Append(hist, [op |-> kind, t |-> t, d |-> d, fk |-> fk, fault |-> fault, env |-> env, t2 |-> 0, d2 |-> 0, sched |-> <<>>])
+  /\ LET seenClock == IF "DateMemo" \in Dev /\ Pool[t].clocked /\ memo[t] >= 0 THEN memo[t] ELSE clock
+         cached == kind \in {"render", "render_async"}          \* the long-lived Template object is used
+         seenContent == IF "PartialMemo" \in Dev /\ cached /\ pmemo[env][t] > 0 THEN pmemo[env][t] ELSE content[env]
+     IN
+     /\ last' = IF fault > 0 THEN <<[kind |-> "fault"]>> ELSE <<[kind |-> "ok", v |-> Value(t, d, seenClock, seenContent)]>>
      /\ memo' = IF "DateMemo" \in Dev /\ Pool[t].clocked /\ memo[t] < 0 /\ fault = 0 THEN [memo EXCEPT ![t] = clock] ELSE memo
-  /\ expect' = IF fault > 0 THEN [kind |-> "fault"] ELSE [kind |-> "ok", v |-> Value(t, d, clock)]
-  /\ UNCHANGED clock
-Tick ==
-  /\ Len(hist) < MaxOps
-  /\ hist' = Append(hist, [op |-> "tick", t |-> 0, d |-> 0, fault |-> 0, env |-> 1])
-  /\ clock' = clock + 1
-  /\ last' = [kind |-> "none"] /\ expect' = [kind |-> "none"]
-  /\ UNCHANGED memo
-Next == \/ \E k \in Calls, t \in TIds, d \in 1..2, f \in 0..MaxFault, e \in 1..2 : Call(k, t, d, f, e)
-        \/ Tick
+     /\ pmemo' = IF "PartialMemo" \in Dev /\ cached /\ Pool[t].loads /\ pmemo[env][t] = 0 /\ fault = 0
+                 THEN [pmemo EXCEPT ![env][t] = content[env]] ELSE pmemo
+  /\ expect' = IF fault > 0 THEN <<[kind |-> "fault"]>> ELSE <<[kind |-> "ok", v |-> Value(t, d, clock, content[env])]>>
+  /\ UNCHANGED <<clock, content>>
 
-\* the result of step i is the result of the same call on fresh objects
+Tick ==
+  /\ "tick" \in Kinds
+  /\ Len(hist) < MaxOps
+  /\ hist' = Append(hist, [op |-> "tick", t |-> 0, d |-> 0, fk |-> "data", fault |-> 0, env |-> 1, t2 |-> 0, d2 |-> 0, sched |-> <<>>])
+  /\ clock' = clock + 1
+  /\ last' = <<>> /\ expect' = <<>>
+  /\ UNCHANGED <<memo, pmemo, content>>
+
+\* the partials in the loader of Environment 1 are replaced by their other version
+Edit ==
+  /\ "edit" \in Kinds
+  /\ Len(hist) < MaxOps
+  /\ hist' = Append(hist, [op |-> "edit", t |-> 0, d |-> 0, fk |-> "data", fault |-> 0, env |-> 1, t2 |-> 0, d2 |-> 0, sched |-> <<>>])
+  /\ content' = [content EXCEPT ![1] = 3 - @]
+  /\ last' = <<>> /\ expect' = <<>>
+  /\ UNCHANGED <<clock, memo, pmemo>>
+
+\* two render_async calls on long-lived Template objects of one Environment, interleaved at
+\* their await points as `sched` says (then round-robin); same template = same Template object
+Interleaved(s) == \E i, j \in DOMAIN s : i < j /\ s[i] # s[j] /\ \E k \in DOMAIN s : k > j /\ s[k] = s[i]
+Pair(t1, d1, t2, d2, s, env) ==
+  /\ "pair" \in Kinds
+  /\ Len(hist) < MaxOps
+  /\ hist' = Append(hist, [op |-> "pair", t |-> t1, d |-> d1, fk |-> "data", fault |-> 0, env |-> env, t2 |-> t2, d2 |-> d2, sched |-> s])
+  /\ LET mixed == "SharedNode" \in Dev /\ t1 = t2 /\ d1 # d2 /\ Interleaved(s) IN
+     last' = << [kind |-> "ok", v |-> Value(t1, IF mixed THEN d2 ELSE d1, clock, content[env])],
+                [kind |-> "ok", v |-> Value(t2, d2, clock, content[env])] >>
+  /\ expect' = << [kind |-> "ok", v |-> Value(t1, d1, clock, content[env])], [kind |-> "ok", v |-> Value(t2, d2, clock, content[env])] >>
+  /\ UNCHANGED <<clock, content, memo, pmemo>>
+
+Next == \/ \E k \in Calls, t \in TIds, d \in DIds, f \in 0..MaxFault, e \in 1..2 : Call(k, t, d, "data", f, e)
+        \/ \E k \in Calls, t \in TIds, d \in DIds, f \in 1..MaxFault, e \in 1..2 : Call(k, t, d, "loader", f, e)
+        \/ Tick \/ Edit
+        \/ \E t1 \in PairIds \cap TIds, t2 \in PairIds \cap TIds, d1 \in 1..2, d2 \in 1..2, s \in Scheds, e \in 1..2 : t1 <= t2 /\ Pair(t1, d1, t2, d2, s, e)
+
+\* the result of every step is the result of the same call on fresh objects
 HistoryIndependent == last = expect
 
 Export ==
